@@ -13,9 +13,9 @@ from ..core import canon, e1
 PROPERTY = "C19"
 LEVEL = "exploration"
 RULE = (
-    "three base files (2.0 with ~V ~W ~P ~X ~C ~A; one with duplicated mnemonics; one version 1.2); junk = every string "
+    "four base files (2.0 with ~V ~W ~P ~X ~C ~A; one with duplicated mnemonics; one version 1.2; one made of terse lines without description or without period); junk = every string "
     "of length 1..3 (thorough 1..4) over {. : blank a 1 \" - ( # / E _ ,} plus adversarial long lines (500 periods, 500 "
-    "colons, quotes only, 5000 digits, ':.', '.:', '..:'); inserted at every line boundary inside ~V, ~W, ~P and the "
+    "colons, quotes only, 5000 digits, ':.', '.:', '..:', parsable lines carrying 25-40 digit integers, 1e999, hex); inserted at every line boundary inside ~V, ~W, ~P and the "
     "custom section, one line at a time, and all pairs (two junk lines at two sites) over the short strings; each text "
     "is read with and without ignore_header_errors; non-trivial = junk that is neither blank nor a '#' comment"
 )
@@ -27,7 +27,11 @@ ASSUMPTIONS = [
 
 ALPHA = [".", ":", " ", "a", "1", '"', "-", "(", "#", "/", "E", "_", ","]
 LONG = ["." * 500, ":" * 500, '"' * 40, "'" * 40, "1" * 5000, ":.", ".:", "..:", ". .", ": :", "a" * 300 + ".", "." + "a" * 300,
-        "a.b.c.d:e:f:g", "\t", "\t.\t:\t", "((((", "[[]]", "a b c d e f g h", "1.2.3.4:5:6", "%s %d {0}", "\\", "\\.\\:"]
+        "a.b.c.d:e:f:g", "\t", "\t.\t:\t", "((((", "[[]]", "a b c d e f g h", "1.2.3.4:5:6", "%s %d {0}", "\\", "\\.\\:",
+        # parsable lines whose value is far outside every machine number range
+        "a. " + "9" * 25 + " : d", "X. 123456789012345678901234567890", "Q.U -" + "9" * 40 + " : big", "a. 1e999 : d", "a. -1E+4000 :",
+        "9" * 30 + ". 1 : digits as name", "a." + "9" * 30 + " 5 : digits as unit", "a : " + "9" * 25, "a. 0x" + "F" * 20 + " : hex",
+        "@.# $ : %", "junk.unit value : descr", ".u : d"]
 
 BASES = [
     ("~Version\nVERS. 2.0 : version\nWRAP. NO : wrap\n~Well\nSTRT.M 1.0 : start\nSTOP.M 3.0 : stop\nSTEP.M 1.0 : step\n"
@@ -40,6 +44,9 @@ BASES = [
     ("~Version\nVERS. 1.2 : version\nWRAP. NO : wrap\n~Well\nSTRT.M 1.0 : start\nSTOP.M 3.0 : stop\nSTEP.M 1.0 : step\n"
      "NULL. -999.25 : null\nWELL. name of well : W-12\nUWI. unique id : 0012345\n~Parameter\nP1.U 3.5 : first\n~Xtra\n"
      "Q1. 9 : q one\n~Curve\nDEPT.M : depth\nGR.GAPI : gamma\n~ASCII\n1.0 10.5\n2.0 -999.25\n3.0 30.5\n"),
+    # terse genuine lines: no colon (no description field), no period (NAME : VALUE)
+    ("~Version\nVERS. 2.0\nWRAP. NO\n~Well\nSTRT.M 1.0\nSTOP.M 2.0\nSTEP.M 1.0\nNULL. -999.25\nCOMP.  ACME OIL\nDRILLED : 12/11/2010\n"
+     "~Parameter\nRUN : 3\nBHT.DEGC 35.5\n~Xtra\nNOTE : free form\nQ1. 9\n~Curve\nDEPT.M\nGR.GAPI\n~ASCII\n1.0 10.5\n2.0 -999.25\n"),
 ]
 
 
